@@ -290,3 +290,41 @@ Proof.
   split; [split; [|repeat constructor]; repeat (constructor; [reflexivity|]); constructor|].
   repeat split; vm_compute; reflexivity.
 Qed.
+
+(* ====================================================================================
+   Round 5 — the consumers, derived from the source.  Gen/C17Flow.v (translate/c17_flow.py) lists every
+   `.join(` / `join_rel(` call of SimpleSymbolSupplier / HttpSymbolSupplier (lib.rs, http.rs, outside the path
+   builders) with the PROVENANCE of the joined string (which builder produced the FileLookup whose cache_rel /
+   server_rel is joined, followed through parameters to every call site; moz_lookup of it; the code-info path)
+   and of the root (a symbol directory of self.paths, the cache directory, a server URL). *)
+From RM Require Import C17.FlowModel C17.FlowProofs Gen.C17Flow.
+
+(* nothing is joined that did not come out of a lookup builder, onto no root of unknown origin
+   (an unknown entry — FileLookup.debug_file, a raw module name, a formatted string — is printed by Coq) *)
+Theorem c17_src_consumers_known : unknown_sites g_consumer_joins = [].
+Proof. exact all_sites_known. Qed.
+Print Assumptions c17_src_consumers_known.
+
+(* every join site, every module (all byte strings, hex ids), every FileKind: the joined string is a safe
+   relative path and stays below its root — Path::join under POSIX and Windows rules and by concatenation for
+   directories (root a prefix, at most one separator added, no `..` component), join_rel + Url::join for server URLs
+   (requested below the base directory of every base path) *)
+Theorem c17_src_consumers_contained : forall s m kind p,
+  In s g_consumer_joins -> mv_bytes m -> mv_hex m ->
+  eval_arg (s_arg s) m kind = Some p -> safe_rel p /\ below_root (s_root s) p.
+Proof. exact flow_contained. Qed.
+Print Assumptions c17_src_consumers_contained.
+
+(* the two extractions agree on which calls are consumer joins *)
+Theorem c17_src_flow_sites_agree :
+  map (fun s => (s_file s, s_text s)) g_consumer_joins
+  = map (fun x => site_key (fst x)) (filter is_consumer_site modelled_join_sites).
+Proof. exact flow_sites_are_the_join_sites. Qed.
+Print Assumptions c17_src_flow_sites_agree.
+
+(* non-vacuity: for an ordinary module every extracted site does join something *)
+Example c17_nonvacuous_flow : forall s, In s g_consumer_joins ->
+  exists p, eval_arg (s_arg s)
+              {| m_code_file := [107;46;100;108;108]; m_code_identifier := Some [53;97];
+                 m_debug_file := Some [97;92;84;46;112;100;98]; m_debug_identifier := Some [48;49] |} KBinary = Some p.
+Proof. exact flow_nonvacuous. Qed.
